@@ -50,7 +50,8 @@ PROPS["C19"] = {
     "rule": "typed write scripts: every kind, every pair and triple of kinds, alignment after every length 0..23, random sequences of up to 12 writes "
             "with boundary and random values, with and without trailing bytes; (base, offset) alignment pairs 0..40 x 0..40 (exhaustive mod 8, through a real "
             "sliced decoder); Header.Decode on every length 0..16 with exact and spare capacity plus random buffers; raw read scripts on random buffers "
-            "(short, spare capacity, nested SliceDecoder up to depth 4). Non-trivial = not a panic / error outcome.",
+            "(short, spare capacity, nested SliceDecoder up to depth 4, Length() and Header.Decode as script steps); for every data length 0..40: the data is consumed, "
+            "a Skip / SkipAlign moves PAST the end, then Length() and Header.Decode are asked (error, never a panic). Non-trivial = not a panic / error outcome.",
     "trivial_outputs": ["panic", "err", "-", "ok 0"],
     "level_text": "Kernel-checked theorems over a hand model of Encoder/Decoder whose alignment arithmetic is the Int64 expression regenerated from Decoder.SkipAlign: round trip for ANY sequence of typed writes and any values (induction over the sequence, with arbitrary trailing bytes), exact widths of every put/read, alignment lands on the next multiple of 8 counted from the enclosing message's start, moves at most 7 and never backwards (for sliced decoders at any nesting depth via the Within invariant), Header.Decode on fewer than 8 bytes is an error and has no panic outcome. Tie: regenerated SkipAlign/Skip/Offset; the real Encoder/Decoder are run on generated scripts and compared with the model, including Go's slice-to-capacity semantics.",
     "level_note": "Trusted: Lean kernel; ofvextract; OFV.Go.Slice (index checks len, re-slicing checks cap); the hand model of the read/put primitives is tied by the differential run only; offsets are assumed below 2^62 (Go int = Int64).",
@@ -79,7 +80,10 @@ PROPS["C11"] = {
     "gen_deps": [],
     "race": True,
     "rule": "1..64 producer goroutines x 1..80 messages of 8..7000 bytes each through m.Outbound with seeded scheduling noise; every conn.Write "
-            "recorded; checks per run: each Write is exactly one submitted encoding, per-producer order, exactly once, stream re-framed by header length.",
+            "recorded; checks per run: each Write is exactly one submitted encoding, per-producer order, exactly once, stream re-framed by header length. "
+            "outfault: the k-th Write times out after accepting 0/1/8/15/100 bytes - the wire must stay a prefix of whole submitted frames. outreal: 1/2/3/8 "
+            "MessageStreams in one process send REAL library messages (packet-out, flow-mod, echo) to connections whose Write looks at the bytes only at the end "
+            "of a delay - every connection must carry exactly the encodings of its own messages (computed beforehand from equal twin values).",
     "trivial_outputs": ["ok 0"],
     "level_text": "Kernel-checked invariant over a transition system of any number of producers, a FIFO channel of any capacity and one writer: for every producer, (written ++ held by writer ++ queued ++ not yet submitted) is exactly its submission sequence; hence per-producer order, prefix property in every reachable state of every schedule, exactly-once at quiescence, contiguous frames. The single-writer / one-Write-per-message premises are regenerated syntactic facts about util/stream.go checked by decide. Tie: the real stream is driven by concurrent producers and every Write is checked.",
     "level_note": RUNTIME_NOTE + " A net.Conn that performs short writes without error is outside the model (the code ignores the byte count).",
@@ -90,7 +94,10 @@ PROPS["C14"] = {
     "gen_deps": [],
     "race": True,
     "rule": "2..64 goroutines drawing 1..20000 ids each through NewHeaderGenerator and NewOfp13Header concurrently (all ids pairwise distinct, headers "
-            "well-formed); 2..64 goroutines running 60 sampled builder/encoder programs concurrently, results compared with the sequential run.",
+            "well-formed); 2..64 goroutines running 60 sampled builder/encoder programs concurrently, results compared with the sequential run; concurrent mixed-case "
+            "registry lookups and packet constructors in an isolated process; xtalk: every API program of the generator (about 1000 valid histories) is observed, "
+            "then the traffic of a peer that leaves 0xa5 in every padding field (160 switch-side frames of all 20 kinds) is parsed, then every program is observed "
+            "again - the two observations must be equal (no state shared between independent values).",
     "trivial_outputs": [],
     "level_text": "Kernel-checked: (F1) for every schedule of atomic fetch-and-add draws by any number of goroutines the issued ids are pairwise distinct while fewer than 2^32 were drawn, with the contrasting theorem that a separate load/store admits duplicates; (F2) an abstract non-interference theorem: threads whose steps read read-only globals and write only their own store end, under every interleaving, with their sequential result; its premise is instantiated from facts regenerated from the source on every run (the complete list of package-level variables and the only write/address-of on any of them: &messageXid passed to atomic.AddUint32). Tie: regenerated facts + concurrent id draws and concurrent-vs-sequential runs on the real library (race detector in the thorough tier).",
     "level_note": RUNTIME_NOTE + " logrus/log/math-rand internal state is third-party/stdlib and internally locked (trusted). The 'own store' premise for encoders/decoders (each allocates its own buffers) is supported by the absence of package-level mutable state, not proved per function.",
@@ -158,7 +165,7 @@ DEC_RULE = ("generic reflection harness, decode side: every encoding captured fr
             "longer than len, as in the stream's pooled buffers); random byte strings. Non-trivial = the decoder returned a value (not an error).")
 PROPS["C12"] = {
     "families": ["OF"], "ops": "scribble,parse", "gen_deps": [],
-    "rule": "scribble: every message that Parse accepts among the generated frames (api/enc encodings of every kind incl. packet-in with Ethernet/IPv4/IPv6/ARP/ICMP/UDP "
+    "rule": "scribble: every message that Parse accepts among the generated frames (the library's own encodings of API-built top-level messages with every action mix; api/enc encodings of every kind incl. packet-in with Ethernet/IPv4/IPv6/ARP/ICMP/UDP "
             "payloads, vendor and bundle messages with properties, multipart replies; their corruptions) is parsed from a private copy, the WHOLE backing array "
             "(len and spare capacity) is then overwritten twice with different patterns, and the message dump and its re-encoding are compared with the ones taken "
             "before. Non-trivial = Parse returned a message.",
@@ -191,7 +198,7 @@ PROPS["C09"] = {
 
 PROPS["C07"] = {
     "families": ["OF"], "ops": "parse,sw,dec", "gen_deps": [],
-    "rule": DEC_RULE + " For C07: every frame goes through openflow13.Parse (about 12 000 frames at the quick tier: wire images of every message kind incl. packet-in with every payload decoder, vendor and bundle messages, multipart replies; every truncation, corruption of type/length/count bytes, declared lengths 0 and 0xffff, spare capacity). A Parse call that does not return within 1.5 s counts as non-termination, a recovered panic is an error.",
+    "rule": DEC_RULE + " For C07: every frame goes through openflow13.Parse (about 13 000 frames at the quick tier: wire images of every message kind incl. packet-in with every payload decoder, vendor and bundle messages, multipart replies; every truncation, corruption of type/length/count bytes, declared lengths 0 and 0xffff, spare capacity; flow-mods with conntrack actions nested 9..200 deep (..2700 at the thorough tier); packet-ins carrying IPv6 with every next-header value 0..255, directly and after a hop-by-hop header, with and without bytes after the last header). A Parse call that does not return within 1.5 s counts as non-termination, a recovered panic is an error.",
     "trivial_outputs": ["err", "panic", "spin", "-"],
     "level_text": "Kernel-checked: C07_parse_no_panic (for every depth and slice, unconditional) and C07_parse_total : for EVERY well-formed slice (len <= cap, no bound on either) Parse returns a message or an error — proved decoder by decoder: every loop of every decoder reachable from Parse (hello elements, match fields, action lists at every conntrack nesting depth, learn specs, instructions, flow-stats records, multipart records, TLV maps, bundle properties and the nested Parse, packet-in -> Ethernet via the C08 theorems) advances its cursor on every successful iteration within fuel linear in the input. The failed attempts to prove it without bounds produced three concrete non-terminating inputs (hello > 65535 bytes; a 65535-byte flow-stats reply; a 65545-byte bundle-add), each replayed on the library, repaired (b558ac9, 48a6ffe, f8f0b2c) and kept as corpus witnesses. Oracle on the implementation: no generated frame makes Parse panic or exceed its time budget.",
     "level_note": OF_NOTE + " 'Time and memory proportional to the input' is proved as: no panic, no non-termination, loop fuel linear in the slice capacity; the model has no finer cost notion.",
